@@ -50,12 +50,21 @@ SHAPES = {
 }
 
 
+class Undeserialisable(Exception):
+    pass
+
+
 class BadSerde:
+    KINDS = (ValueError, KeyError, TypeError, ZeroDivisionError, Undeserialisable, EOFError, AttributeError)
+
+    def __init__(self, kind=0):
+        self.kind = kind
+
     def serialize(self, key, value):
         return value, 0
 
     def deserialize(self, key, value, flags):
-        raise ValueError("undeserialisable item")
+        raise self.KINDS[self.kind]("undeserialisable item")
 
 
 def _client(net, extra=None):
@@ -92,7 +101,7 @@ def h_ignore(fat: int, fk: int, cut: int, d1: int, d2: int) -> int:
     extra = None
     if MODE == "serde":
         plan = None
-        extra = {"serde": BadSerde()}
+        extra = {"serde": BadSerde(concretize(fk, 1, 9) % len(BadSerde.KINDS))}
     elif MODE == "down":
         plan = None
         servers = {}                      # nothing listens: every connect is refused
